@@ -3,6 +3,7 @@ package props
 import (
 	"voicheck/edt"
 	"voicheck/elen"
+	"voicheck/emod"
 )
 
 // documentedPanics is the frozen table of explicit panics that the library
@@ -75,6 +76,23 @@ func init() {
 						edt.Check(rnil, ecfg, s)
 					}
 				}
+				// an expanded key reaches the lookup tables only after the admission test that a zero-value
+				// or undecodable key fails (its tables are nil: an implicit panic) — the table of C09/C01
+				ve := run.Rule("DT-verify-expanded", "verification with an expanded key rejects (never dereferences) a key whose point was not decoded: same admission function as single verification over the cached key predicates", 300)
+				sp := verifyExpandedSpec()
+				addHram(ecfg, sp)
+				edt.Check(ve, ecfg, sp)
+				for _, s := range c09MiscSpecs() {
+					if s.Func == "(*VerifyOptions).checkExpandedPublicKey" || s.Func == "NewExpandedPublicKey" {
+						edt.Check(ve, ecfg, s)
+					}
+				}
+				// the shared cache mutates its list and index only under the exclusive lock (a racing
+				// container/list is a nil dereference inside Verify)
+				lacc := run.Rule("LOCK-access", "every access to a field of a mutex-containing struct holds the lock; writes hold it exclusively", 8).RequireControl(1)
+				latm := run.Rule("LOCK-atomic", "every externally callable method of a mutex-containing struct takes the lock first and releases it by defer", 2).RequireControl(1)
+				ldbl := run.Rule("LOCK-double", "no path locks the same mutex twice", 2).RequireControl(1)
+				emod.CheckLocks(p, modFor(p), lacc, latm, ldbl)
 			}
 			run.Sample(checkIndexDecrement(p, ridx))
 			run.Sample(checkLoopNarrow(p, rnar))
@@ -91,5 +109,8 @@ func init() {
 				run.Extra["panic_sites_"+id] = sites
 			}
 		}
+		// a panic inside the transcript layer is a panic of every sr25519 / Merlin entry point: STROBE's
+		// position arithmetic (runF at the block boundary, beginOp, duplex) per the tables of C13
+		transcriptFoundations(c)
 	}
 }
